@@ -76,7 +76,7 @@ func checkLowering(c *Ctx) {
 	}
 	if fam, ok := cachedGenModule(c, "GenSwitch", map[string]int{"MaxCases": 3}, "switches.ndjson"); ok {
 		for i, ln := range fam["switches.ndjson"] {
-			if (int64(i)+c.Seed)%4 != 0 && c.Quick() {
+			if !sampled(i, c.Seed, 4) && c.Quick() {
 				continue
 			}
 			var f swFam
